@@ -15,6 +15,7 @@ import JsonV.Lemmas.GlueFormatLayout
 import JsonV.Lemmas.FormatStrictL
 import JsonV.Lemmas.GlueTreeConverse
 import JsonV.Lemmas.GlueStrict
+import JsonV.Lemmas.FormatRespell
 import JsonV.Props.C01
 import JsonV.Gen.Lits
 
@@ -324,8 +325,45 @@ example : isValidV {} [0x22, 0x5c, 0x75, 0x64, 0x38, 0x30, 0x30, 0x22] = false :
 example : isValidV { allowInvalidUTF8 := true } [0x22, 0x5c, 0x75, 0x64, 0x38, 0x30, 0x30, 0x22] = true := by decide +kernel
 example : (⟨true, true, true, false, false, compactOpts⟩ : FOpts).verbatim := ⟨rfl, rfl, rfl⟩
 
-/-- Full statements for the respelling options (PreserveRawStrings off or an escape option on), validated by the
-harness predicates and by the `fmt formatv` correspondence: the output tokens are the input tokens with every
+/-- **Meaning preserved and fixed point when strings are respelled** (any PreserveRawStrings, both validation
+options, no escape option — in particular `Value.Format()` with the default options): the output is accepted under
+the same validation options, its tokens are the input tokens with every string respelled (ReformatString, slice
+C11: the RFC 8785 spelling of the same text), every string keeps its unquoted text, all other tokens are unchanged,
+and formatting the output again returns it unchanged.  With AllowDuplicateNames(false) the statement is relative to
+`NameKeyUnquote` (the name key of a literal is its unquoted text; a fact about C01's `unescapedName` not yet proved
+in slice wire); with AllowDuplicateNames(true) it is unconditional. -/
+theorem formatV_respell (o : FOpts) (hR : o.noEscape) (hw : o.ws.Blank) (hd : o.allowDup = true ∨ NameKeyUnquote)
+    (b b' : Bytes) (h : formatV o b = some b') :
+    ∃ ts, tokenizeV o b = some ts ∧ tokenizeV o b' = some (ts.map (respell o)) ∧
+      (∀ k ∈ ts, match k with
+        | Tok.str raw => respell o k = .str (respellStr o raw) ∧
+            (Model.Wire.unquote (respellStr o raw)).1 = (Model.Wire.unquote raw).1
+        | k => respell o k = k) ∧
+      formatV o b' = some b' := by
+  unfold formatV at h
+  cases ht : tokenizeV o b with
+  | none => simp [ht] at h
+  | some ts =>
+    simp only [ht, Option.some.injEq] at h
+    obtain ⟨h1, h2, h3, h4⟩ := respell_tokens o hR hd b ts ht
+    have hb' : tokenizeV o b' = some (ts.map (respell o)) := by
+      rw [← h]; exact tokenizeV_render' o o.ws hw _ h1 h2
+    refine ⟨ts, rfl, hb', ?_, ?_⟩
+    · intro k hk
+      cases k with
+      | str raw => exact ⟨rfl, by rw [wire_unquote_unqS, wire_unquote_unqS]; exact h4 raw hk⟩
+      | _ => rfl
+    · unfold formatV
+      simp only [hb', h3, h]
+
+/-- the default options of `Value.Format` have no escape option -/
+example : ({} : FOpts).noEscape := ⟨rfl, rfl⟩
+
+/-- the remaining hypothesis of `formatV_respell` under AllowDuplicateNames(false) -/
+def nameKey_unquote_full : Prop := NameKeyUnquote
+
+/-- Full statements over ALL string options (open part: EscapeForHTML / EscapeForJS, where the output literal is not
+the RFC 8785 spelling), validated by the harness predicates and by the `fmt formatv` correspondence: the output tokens are the input tokens with every
 string replaced by a literal of the same unescaped value, and formatting is idempotent. -/
 def formatV_meaning_full : Prop :=
   ∀ (o : FOpts) (b b' : Bytes), o.ws.Blank → formatV o b = some b' →
